@@ -195,6 +195,9 @@ def r16_6(ctx):
 
 
 def run(ctx):
+    ctx.rule("R16.7", "the tokenizer's finish_attribute empties the value buffer on every path: a dropped duplicate's value never leaks into the next (possibly xmlns) attribute")
+    from . import tokrules as _tr7
+    ctx.guard("R16.7", "attr-buffers/xml", lambda: _tr7.attr_buffers_emptied(ctx, "R16.7", "xml"))
     ctx.rule("R16.6", "insert_ns records every accepted declaration in the element's own scope (Some(ns), or None for an empty value)")
     ctx.guard("R16.6", "insert_ns", lambda: r16_6(ctx))
     ctx.rule("R16.1", "over phase x kind x is_script: scope push == open-element push; pop() removes both together and is the only remover")
